@@ -68,6 +68,7 @@ class Check:
     self.known_hits: Dict[str, int] = {}
     self.findings = load_findings(prop)
     self._printed_known = set()
+    self.write_evidence = True       # False in --replay mode
 
   # ---- bookkeeping -------------------------------------------------------
   def count(self, key: str, n: int = 1):
@@ -172,8 +173,9 @@ class Check:
         'wall_s': round(wall, 2),
         'violations': len(self.violations),
     }
-    EVIDENCE.mkdir(exist_ok=True)
-    (EVIDENCE / f'{self.prop}.json').write_text(json.dumps(ev, indent=1, default=repr) + '\n')
+    if self.write_evidence:
+      EVIDENCE.mkdir(exist_ok=True)
+      (EVIDENCE / f'{self.prop}.json').write_text(json.dumps(ev, indent=1, default=repr) + '\n')
     # listed findings that were *not* met this run are still announced (the tree
     # is unchanged as far as this check can tell only if they reproduce; a
     # finding that no longer reproduces is reported as a note, not an alarm).
@@ -199,8 +201,9 @@ class Check:
     return 0
 
 
-def run_check(prop: str, fn, tier: str, seed: int, level: str = 'model_checking') -> int:
+def run_check(prop: str, fn, tier: str, seed: int, level: str = 'model_checking', write_evidence: bool = True) -> int:
   chk = Check(prop, tier, seed, level)
+  chk.write_evidence = write_evidence
   try:
     fn(chk)
   except (MachineryFailure, tlcmod.TLCError) as e:
